@@ -1,5 +1,6 @@
 import TantivyModel.Driver.Proto
 import TantivyModel.Model.Columnar.Column
+import TantivyModel.Model.Columnar.Writer
 /-!
 Line protocol of the C08 model (fast fields / columnar).
 
@@ -13,6 +14,7 @@ Line protocol of the C08 model (fast fields / columnar).
   optenc <numRows> <rows>            -> hex of serialize_optional_index
   optidx <hex> <docs> <ranks>        -> `numDocs numNonNull;rank..;rankIfExists..;select..` (x = none)
   i64_to_u64 / u64_to_i64 / f64_to_u64 / u64_to_f64 <bits>
+  writer <rows>                      -> `card;rows` written by the ColumnWriter op-log pipeline and read back
   roundtrip <card|auto> <rows>       -> rows read back from encodeAs (rows: `1,2|-|3`)
   shuffle <order> <inputs>           -> rows of read(mergeShuffled); order `seg:row,seg:row`,
                                         inputs separated by `/`, each `~n` (missing, n docs) or rows
@@ -130,6 +132,13 @@ def handle : List String → String
   | ["u64_to_i64", x] => match x.toNat? with | some x => toString (Gen.Col.u64_to_i64 (bv x)).toNat | none => "bad-op"
   | ["f64_to_u64", x] => match x.toNat? with | some x => toString (Gen.Col.f64_to_u64 (bv x)).toNat | none => "bad-op"
   | ["u64_to_f64", x] => match x.toNat? with | some x => toString (Gen.Col.u64_to_f64 (bv x)).toNat | none => "bad-op"
+  | ["writer", rows] =>
+    match parseRows rows with
+    | some rows =>
+      let e := writerEncode rows
+      let c := match e.1 with | .full => "full" | .optional _ _ => "optional" | .multivalued _ _ _ => "multivalued" | .empty _ => "empty"
+      c ++ ";" ++ showRows (read e.1 e.2)
+    | none => "bad-op"
   | ["roundtrip", c, rows] =>
     match parseCard c, parseRows rows with
     | some c, some rows =>
